@@ -54,7 +54,10 @@ type textGen struct {
 	r      *Rng
 	params map[string]Term
 	wild   bool // random layout
+	nodes  int  // nodes of the expression under construction: beyond exprBudget only plain terms
 }
+
+const exprBudget = 40
 
 func (g *textGen) termText(t Term) []string {
 	switch t.K {
@@ -242,17 +245,20 @@ func (g *textGen) term(allowVar bool) Term {
 // genExpr builds a tree that is well-formed at precedence level lvl.
 func (g *textGen) genExpr(lvl, depth int) *ETree {
 	r := g.r
+	g.nodes++
+	if g.nodes > exprBudget {
+		depth = 0 // no more chains, parentheses or method calls: straight down to a term
+	}
 	chain := func(ops []string, next int) *ETree {
+		// the precedence ladder is walked at constant depth (the level strictly increases);
+		// depth is spent only where the tree re-enters level 0: parentheses and method arguments
 		n := 1
-		if depth > 0 {
-			n = 1 + r.Intn(3)
-			if r.Chance(1, 2) {
-				n = 1
-			}
+		if depth > 0 && r.Chance(1, 3) {
+			n = 2 + r.Intn(2)
 		}
-		t := g.genExpr(next, depth-1)
+		t := g.genExpr(next, depth)
 		for i := 1; i < n; i++ {
-			t = &ETree{K: "bin", Op: Pick(r, ops), L: t, R: g.genExpr(next, depth-1)}
+			t = &ETree{K: "bin", Op: Pick(r, ops), L: t, R: g.genExpr(next, depth)}
 		}
 		return t
 	}
@@ -262,9 +268,9 @@ func (g *textGen) genExpr(lvl, depth int) *ETree {
 	case 1:
 		return chain([]string{"and"}, 2)
 	case 2:
-		l := g.genExpr(3, depth-1)
+		l := g.genExpr(3, depth)
 		if depth > 0 && r.Chance(1, 2) {
-			return &ETree{K: "bin", Op: Pick(r, []string{"lt", "le", "gt", "ge", "eq"}), L: l, R: g.genExpr(3, depth-1)}
+			return &ETree{K: "bin", Op: Pick(r, []string{"lt", "le", "gt", "ge", "eq"}), L: l, R: g.genExpr(3, depth)}
 		}
 		return l
 	case 3:
@@ -273,21 +279,31 @@ func (g *textGen) genExpr(lvl, depth int) *ETree {
 		return chain([]string{"mul", "div"}, 5)
 	case 5:
 		if depth > 0 && r.Chance(1, 5) {
-			return &ETree{K: "neg", L: g.genExpr(6, depth-1)}
+			return &ETree{K: "neg", L: g.genExpr(6, depth)}
 		}
-		return g.genExpr(6, depth-1)
+		return g.genExpr(6, depth)
 	case 6:
-		t := g.genExpr(7, depth-1)
+		t := g.genExpr(7, depth)
 		if depth > 0 {
 			for i, n := 0, r.Intn(3); i < n && r.Chance(1, 2); i++ {
 				if r.Chance(1, 4) {
 					t = &ETree{K: "length", L: t}
 				} else {
-					t = &ETree{K: "method", Op: Pick(r, []string{"contains", "prefix", "suffix", "regex", "intersection", "union"}), L: t, R: g.genExpr(0, depth-2)}
+					t = &ETree{K: "method", Op: Pick(r, []string{"contains", "prefix", "suffix", "regex", "intersection", "union"}), L: t, R: g.genExpr(0, depth-1)}
 				}
 			}
 		}
 		return t
+	}
+	if depth > 1 && r.Chance(1, 10) {
+		// stacked parentheses, and a parenthesised operation whose operands are both
+		// parenthesised: its text starts with "(" and ends with ")" twice over
+		if r.Chance(1, 2) {
+			return &ETree{K: "paren", L: &ETree{K: "paren", L: g.genExpr(0, depth-2)}}
+		}
+		op := Pick(r, []string{"add", "sub", "mul", "div"})
+		return &ETree{K: "paren", L: &ETree{K: "bin", Op: op,
+			L: &ETree{K: "paren", L: g.genExpr(3, depth-2)}, R: &ETree{K: "paren", L: g.genExpr(3, depth-2)}}}
 	}
 	if depth > 0 && r.Chance(1, 4) {
 		return &ETree{K: "paren", L: g.genExpr(0, depth-1)}
@@ -327,6 +343,7 @@ func (g *textGen) body(depth int) []pElem {
 			p := g.pred(true)
 			out = append(out, pElem{Pred: &p})
 		} else {
+			g.nodes = 0
 			out = append(out, pElem{Expr: g.genExpr(0, depth)})
 		}
 	}
